@@ -31,6 +31,7 @@ import (
 	"strconv"
 	"strings"
 	"sync"
+	"sync/atomic"
 	"syscall"
 	"time"
 	. "verifharness/vhlib"
@@ -1123,6 +1124,7 @@ type caseResult struct {
 	err      string
 	counts   map[string]int
 	fired    int // plan actions that fired
+	lastRun  *runInfo // trace of the last invocation of the scenario
 }
 
 func sameTree(a, b *obs) bool { return a.show() == b.show() && a.Remote.Hash == b.Remote.Hash }
@@ -1162,6 +1164,7 @@ func runScenario(t *tools, name string, sc scenario, drv *Nadrv) *caseResult {
 		case "r":
 			plan := parsePlan(parts[1])
 			r = sb.run(plan, sc.Wrapper && len(plan) == 0)
+			cr.lastRun = r
 			cr.counts["event:run"]++
 			cr.counts["run-exit:"+r.Exit]++
 			racePush = false
@@ -1549,6 +1552,8 @@ func runC19(ctx *Ctx) *Result {
 		sysEmails = []bool{false, true}
 	}
 	probeNo := 0
+	nHead := len(scs)
+	var family []scenario
 	for _, se := range sysEmails {
 		for _, b := range bases {
 			probeNo++
@@ -1556,6 +1561,48 @@ func runC19(ctx *Ctx) *Result {
 			record(res, probe)
 			if probe.err != "" || len(probe.impl) == 0 {
 				continue
+			}
+			if probeNo <= 2 && probe.lastRun != nil {
+				// a commit that arrives while the compiler runs AND a kill of that same run in the promote
+				// window (after `mv next pN`: before `rm -f current`, before `ln -s`, after it), then
+				// undisturbed runs: always run, right after the corpus.  Positions from the real trace
+				// of the undisturbed run (commands of the model's writer lines near the end as fallback).
+				r := probe.lastRun
+				kc, ks := 0, []int{}
+				for i, c := range r.Cmds {
+					switch {
+					case strings.HasPrefix(c, "netspoc "):
+						kc = i + 1
+					case strings.HasPrefix(c, "rm -f $CURRENT"), strings.HasPrefix(c, "ln -s $POLICY"):
+						ks = append(ks, i+1)
+						if strings.HasPrefix(c, "ln -s $POLICY") {
+							ks = append(ks, i+2)
+						}
+					}
+				}
+				if kc == 0 || len(ks) == 0 {
+					res.Count("promote-window family: positions not found in the trace, using the last commands")
+					kc, ks = 0, nil
+					for i := range r.Cmds {
+						if r.isWriter(i, t.gitFn) && kc == 0 && i > len(r.Cmds)/2 {
+							kc = i + 1
+						}
+					}
+					for k := len(r.Cmds) - 9; k <= len(r.Cmds)-4; k++ {
+						ks = append(ks, k)
+					}
+				}
+				for _, cpos := range []int{kc, kc + 1} {
+					for _, k := range ks {
+						if cpos < 1 || k <= cpos {
+							continue
+						}
+						for _, gb := range []string{"cg"} {
+							evs := append(append([]string{}, b...), fmt.Sprintf("r:%d=%s,%d=K", cpos, gb, k), "r:", "r:")
+							family = append(family, scenario{Kind: "seq", SysEmail: se, Events: evs, Src: "promote-window"})
+						}
+					}
+				}
 			}
 			last := probe.impl[len(probe.impl)-1]
 			tr := last[strings.Index(last, "trace=")+6:]
@@ -1599,6 +1646,8 @@ func runC19(ctx *Ctx) *Result {
 			}
 		}
 	}
+	// the promote-window family runs right after the corpus / early random / early parallel scenarios
+	scs = append(scs[:nHead:nHead], append(family, scs[nHead:]...)...)
 	nPar := ctx.N(12, 150)
 	for i := 0; i < nPar; i++ {
 		rng := ctx.Rng.Fork()
@@ -1618,6 +1667,8 @@ func runC19(ctx *Ctx) *Result {
 
 	// run in parallel workers, record in order
 	results := make([]*caseResult, len(scs))
+	known := loadKnown(ctx.Verif)
+	var newFailure atomic.Bool
 	var wg sync.WaitGroup
 	work := make(chan int)
 	workers := 14
@@ -1627,12 +1678,24 @@ func runC19(ctx *Ctx) *Result {
 			defer wg.Done()
 			for i := range work {
 				results[i] = runScenario(t, fmt.Sprintf("c%d", i), scs[i], drv)
+				for _, f := range results[i].findings {
+					if known != nil && !isKnown(known, f) {
+						newFailure.Store(true)
+					}
+				}
 			}
 		}()
 	}
 	deadline := time.Now().Add(time.Duration(ctx.N(45, 720)) * time.Second)
 	skipped := 0
 	for i := range scs {
+		if !ctx.Thorough() && newFailure.Load() && i >= nHead+len(family) {
+			// quick: a failure outside the known findings already has a replayable scenario -- the run is
+			// red anyway; the corpus and the promote-window family are always completed
+			skipped = len(scs) - i
+			res.Notes = append(res.Notes, "quick search ended early: a new failure with a replayable scenario was found")
+			break
+		}
 		if time.Now().After(deadline) {
 			skipped = len(scs) - i
 			break
@@ -1687,6 +1750,58 @@ func runC19(ctx *Ctx) *Result {
 	res.Exhaustive = false
 	_ = context.Background
 	return res
+}
+
+// knownSigs: signatures of known/C19.jsonl (status known).  Only used to END the quick search early once
+// a failure outside them has a replayable scenario; the verdict known / new is ./check's.
+func loadKnown(verif string) []map[string]any {
+	var out []map[string]any
+	data, err := os.ReadFile(filepath.Join(verif, "known", "C19.jsonl"))
+	if err != nil {
+		return nil
+	}
+	for _, l := range strings.Split(string(data), "\n") {
+		var k struct {
+			Status    string         `json:"status"`
+			Signature map[string]any `json:"signature"`
+		}
+		if json.Unmarshal([]byte(l), &k) == nil && k.Status == "known" && k.Signature != nil {
+			out = append(out, k.Signature)
+		}
+	}
+	return out
+}
+
+func isKnown(known []map[string]any, f finding) bool {
+	sig := map[string]any{"pred": f.pred}
+	for k, v := range f.attrs {
+		sig[k] = v
+	}
+	for _, ks := range known {
+		ok := true
+		for k, v := range ks {
+			have, in := sig[k]
+			if !in {
+				ok = false
+				break
+			}
+			if list, isList := v.([]any); isList {
+				hit := false
+				for _, x := range list {
+					if fmt.Sprint(x) == fmt.Sprint(have) {
+						hit = true
+					}
+				}
+				ok = ok && hit
+			} else if fmt.Sprint(v) != fmt.Sprint(have) {
+				ok = false
+			}
+		}
+		if ok {
+			return true
+		}
+	}
+	return false
 }
 
 // modelStale: the driver runs a program that is not the translation of the script under test
